@@ -30,10 +30,38 @@ import (
 	"verifharness/evid"
 )
 
-func TestMain(m *testing.M) { evid.Main(m, "C18") }
+func TestMain(m *testing.M) {
+	pinProtocolConstants()
+	evid.Main(m, "C18")
+}
 
-// threshold is read from the engine (MaxPenaltyScore).
+// threshold is read from the engine (MaxPenaltyScore) for convenience and pinned to the documented protocol value by
+// pinProtocolConstants, so that a changed constant fails every run instead of moving the oracle with it.
 const threshold = p2p.VerifMaxPenaltyScore
+
+// Documented protocol values: ban score 100 (pkg/p2p/conngater.go "MaxPenaltyScore = 100 // When a peer exceeded the
+// MaxPenaltyScore, it should be banned"; the Lisk P2P protocol bans at a penalty total of 100), 3 retries of a request
+// = 4 attempts (pkg/p2p/message_protocol.go "messageMaxRetries = 3"; late_test.go takes its attempt budget from it).
+const (
+	documentedMaxPenaltyScore = 100
+	documentedMaxRetries      = 3
+)
+
+// pinProtocolConstants runs before anything else in every process of this package (every tier, every shard).
+func pinProtocolConstants() {
+	bad := ""
+	if p2p.VerifMaxPenaltyScore != documentedMaxPenaltyScore {
+		bad += fmt.Sprintf("\n    p2p.MaxPenaltyScore = %d, documented ban threshold %d", p2p.VerifMaxPenaltyScore, documentedMaxPenaltyScore)
+	}
+	if p2p.VerifMaxRetries() != documentedMaxRetries {
+		bad += fmt.Sprintf("\n    p2p.messageMaxRetries = %d, documented %d (= %d attempts per request)", p2p.VerifMaxRetries(), documentedMaxRetries, documentedMaxRetries+1)
+	}
+	if bad != "" {
+		fmt.Printf("--- FAIL: TestMain (C18): an engine constant that the oracles of this package read through the verif accessors differs from the documented protocol value:%s\n"+
+			"    (ban threshold and retry budget are part of the statement: a changed constant is a violation, not a new expectation)\nFAIL\n", bad)
+		os.Exit(1)
+	}
+}
 
 // nopLogger: log.NewSilentLogger still prints error lines.
 type nopLogger struct{}
